@@ -11,7 +11,7 @@ import (
 )
 
 func ZZ_C17_VoteKeyShapes() {
-	id := zz17VarBytes("id", []int{0, 1, 2, 8, 9, 32})
+	id := zz17VarBytes("id", zz17Lens(32))
 	keys := zz17Keys(func(ns *native.NativeService) { putVoteInfo(ns, id, &VoteInfo{VoteInfo: map[string]bool{}}) })
 	zzsym.Assert(len(keys) == 1, "putVoteInfo writes one key")
 	zzsym.Assert(bytes.Equal(keys[0], utils.ConcatKey(utils.CrossChainManagerContractAddress, []byte(VOTE_INFO), id)), "the accessor writes exactly the key shape used in the contract-wide injectivity check")
